@@ -446,6 +446,23 @@ pub mod commit_overlay {
 			Ok(())
 		}
 
+		/// Same as `clean_overlay` but keeps the changes: used when the commit is queued again
+		/// under a new id and still has to be written.
+		pub fn clean_overlay_keep_changes(
+			&self,
+			overlay: &mut BTreeCommitOverlay,
+			record_id: u64,
+		) {
+			use std::collections::btree_map::Entry;
+			for change in self.changes.iter() {
+				if let Entry::Occupied(e) = overlay.entry(change.key().clone()) {
+					if e.get().0 == record_id {
+						e.remove_entry();
+					}
+				}
+			}
+		}
+
 		pub fn clean_overlay(&mut self, overlay: &mut BTreeCommitOverlay, record_id: u64) {
 			use std::collections::btree_map::Entry;
 			for change in self.changes.drain(..) {
